@@ -28,8 +28,11 @@ SAN_ENV = {
         "UBSAN_OPTIONS": "print_stacktrace=1:halt_on_error=1:exitcode=%d:log_path={log}" % EXIT_SAN,
     },
     "tsan": {
-        "TSAN_OPTIONS": "halt_on_error=0:exitcode=0:second_deadlock_stack=1:history_size=4:log_path={log}:"
+        # no log_path: reports go to stderr, interleaved with the per-case markers written by the harness
+        "TSAN_OPTIONS": "halt_on_error=0:exitcode=0:second_deadlock_stack=1:history_size=4:"
                         "suppressions=%s" % os.path.join(VERIF, "tsan.supp"),
+        "OMP_TOOL_LIBRARIES": "/usr/lib/llvm-14/lib/libarcher.so",
+        "ARCHER_OPTIONS": "verbose=0",
     },
     "rel": {},
 }
@@ -113,17 +116,34 @@ def triage_sanitizer_logs(paths):
             if not kind:
                 continue
             if kind.startswith("tsan-"):
-                # key on the first STIR frame of each of the two stacks
-                stacks = re.split(r"\n\s*\n", b)
+                # only the access stacks count (not "As if synchronized via sleep", "Location is", "Thread ... created by")
+                stacks = [st for st in re.split(r"\n\s*\n", b)
+                          if re.match(r"\s*(WARNING: ThreadSanitizer.*\n\s*)?(Previous )?(atomic )?(Atomic )?(read|write|Read|Write) of size", st.strip())
+                          or re.search(r"^\s*(Previous )?(Atomic |atomic )?(Read|Write|read|write) of size", st, flags=re.M)]
+                stacks = [st for st in stacks if not re.search(r"As if synchronized|Location is|created by|Mutex M", st.split("\n")[0])]
+
+                def runtime_internal(st):
+                    # first frame after the interceptor frame(s) that has a module: is it the OpenMP runtime?
+                    for ln in st.split("\n"):
+                        m2 = re.match(r"\s*#(\d+)\s+(\S+).*\((\S+?)\+0x[0-9a-f]+\)", ln)
+                        if not m2:
+                            continue
+                        mod = m2.group(3)
+                        if "libomp" in mod or "libarcher" in mod:
+                            return True
+                        if m2.group(1) == "0" and "<null>" in ln:
+                            continue  # interceptor in the main binary (memset/free/...)
+                        return False
+                    return False
+                if len(stacks) >= 2 and all(runtime_internal(st) for st in stacks[:2]):
+                    continue  # both accesses are inside the OpenMP runtime: not a race in STIR code
                 fr = []
-                for s in stacks[:4]:
-                    f = stir_frames(s, 1)
+                for st in stacks[:2]:
+                    f = stir_frames(st, 1)
                     if f and f[0] not in fr:
                         fr.append(f[0])
-                    if len(fr) >= 2:
-                        break
                 if not fr:
-                    # no STIR frame at all: not attributable to STIR code (runtime / libomp internal)
+                    # no STIR frame in either access stack: not attributable to STIR code
                     continue
                 frames = sorted(fr)
             else:
@@ -222,12 +242,20 @@ def run_shard(exe, flavour, pid, seed, tier, cases, shard, nshards, workdir, tim
                 rc = p.wait()
         sanlogs = glob.glob(logbase + "*")
         reports = triage_sanitizer_logs(sanlogs)
-        stderr_text = open(errf, errors="replace").read()[-20000:]
+        stderr_full = open(errf, errors="replace").read()
+        stderr_text = stderr_full[-20000:]
         if flavour == "tsan":
-            hbj = _read_hb(hb)
-            for kind, key, ex in reports:
-                res.san_reports_nonfatal.append(dict(kind=kind, key=key, excerpt=ex, idx=(hbj or {}).get("idx", -1),
-                                                     desc=(hbj or {}).get("desc")))
+            # split stderr at the per-case markers and triage each chunk
+            chunks = re.split(r"@@VERIF-CASE (\d+)@@", stderr_full)
+            # chunks: [pre, idx, text, idx, text, ...]
+            for ci in range(1, len(chunks) - 1, 2):
+                cidx = int(chunks[ci])
+                tmpf = errf + ".chunk"
+                with open(tmpf, "w") as cf_:
+                    cf_.write(chunks[ci + 1])
+                for kind, key, ex in triage_sanitizer_logs([tmpf]):
+                    res.san_reports_nonfatal.append(dict(kind=kind, key=key, excerpt=ex, idx=cidx, desc=None))
+                os.remove(tmpf)
         if timed_out:
             hbj = _read_hb(hb) or {}
             res.timeouts.append(dict(idx=hbj.get("idx", -1), desc=hbj.get("desc"), stage=hbj.get("stage")))
@@ -360,7 +388,10 @@ def run_check(pid, cfg, tier, seed, jobs, replay=None):
                     violations.append(dict(key=c["key"], idx=c["idx"], desc=c["desc"], witness=c["excerpt"], flavour=flavour,
                                            harness=hname, mode=st.get("mode", ""), kind=c["kind"]))
                     san_counts[c["kind"]] = san_counts.get(c["kind"], 0) + 1
+                descs = {e["idx"]: e.get("desc") for e in r.events if e.get("ev") == "case"}
                 for c in r.san_reports_nonfatal:
+                    if c["desc"] is None:
+                        c["desc"] = descs.get(c["idx"])
                     violations.append(dict(key=c["key"], idx=c["idx"], desc=c["desc"], witness=c["excerpt"], flavour=flavour,
                                            harness=hname, mode=st.get("mode", ""), kind=c["kind"]))
                     san_counts[c["kind"]] = san_counts.get(c["kind"], 0) + 1
